@@ -147,16 +147,15 @@ PROPS["C12"] = {
                    "totals are the sums of what each node owns, totals are conserved, the chosen node is a least-loaded one, and max load <= total/N + largest split (list-scheduling bound). "
                    "Determinism: the loop is a function of (splits, order, nodes) with no hidden state.",
     "kani": [
-        H(SPL, "c12_b_assign_lpt_whole", "assign_lpt (whole function), Assignment::idle_nodes", "every split owned exactly once, totals are sums, per-node lists in canonical order, larger split first with canonical tie-break, idle_nodes exact", lane="B", bound="2 splits, <= 2 nodes", tier="thorough"),
     ],
     "verus": [
         V("c12_lpt", "assign_lpt (greedy loop: `for idx in order` with the inner `for n in 1..nodes`)",
           "partition by counting (cnt_all(per_node) == cnt(order) for every index), node_bytes[k] == sum bytes, node_rows[k] == sum rows over per_node[k], conservation of both totals, "
           "least-loaded choice, N*node_bytes[k] <= total + N*maxb; no overflow under total bytes <= u64::MAX and total rows <= i64::MAX",
-          twin=[f"{SPL}::verif_kani::c12_b_assign_lpt_whole"]),
+          ),
     ],
     "trusted_base": ["Graham 1969: (4/3 - 1/(3N)) * OPT for LPT order is cited, not machine-checked; the list-scheduling bound total/N + max is proved"],
-    "not_under_contract": ["the two sorts (processing order, per-node canonical order) and the Assignment glue are only covered by the bounded whole-function harness"],
+    "not_under_contract": ["the two sorts (processing order, per-node canonical order), the vec! initialisers and the Assignment glue: a bounded whole-function Kani harness (2 splits, <= 2 nodes) was built (kani/splits.rs: c12_b_assign_lpt_whole) but exceeds 20 min / 9 GB in CBMC (String keys in the sort comparators), so it is not part of any tier", "Assignment::imbalance (f64)"],
     "technique": "Verus loop invariants on the greedy loop extracted mechanically from assign_lpt; bounded Kani harness on the whole function for the cut sorts and glue",
     "level_text": "Deductive and unbounded for the partition, sums, conservation and list-scheduling bound (all split multisets, all node counts); the LPT ratio itself is the cited theorem about the algorithm the code is proved to be.",
     "level_note": "Trusted: Verus/Z3; rewrites R4 (vec! initialisers become parameters), R5 (indexed iteration), R1; Graham's bound cited.",
@@ -334,6 +333,33 @@ PROPS["C03"] = {
     "technique": "Verus on the verbatim arithmetic regions of the three packing rules + Kani (bit-precise, all inputs) on the same regions and on the uniqueness gates",
     "level_text": "Deductive for the guards: for all statistics values the guard implies overflow-freedom and injectivity of the packed key over every consistent table (Verus over mathematical integers, Kani over machine integers). Uniqueness gates: bounded at 3-row tables.",
     "level_note": "Trusted: Verus/Z3, Kani/CBMC; statistics sound (C18); std power-of-two functions cross-checked; lookups and plan construction outside. Known finding D3 (uniqueness inferred from an NDV upper bound) excluded by class.",
+}
+
+# ------------------------------------------------------------------ C18
+PQS = "storage::parquet"
+PROPS["C18"] = {
+    "files": ["kani/parquet_stats.rs"],
+    "level": "proof",
+    "explanation": "ParquetTable::compute_statistics opens files itself, so the function as a whole is outside any verifier; its logic is four regions cut verbatim (together with the local struct ColAcc) and "
+                   "verified by Kani for all values: (F1+F4) folding one more column chunk into an ARBITRARY accumulator keeps the invariant that the null count is exact-or-unknown and that whatever "
+                   "min/max the table reports covers every non-NULL value of every folded chunk - for every chunk variant (no statistics, statistics without min/max, Int64, Int32, null count present or not); "
+                   "(F3) non_null never underflows and ndv_est never panics and is exactly min(non_null, max-min+1), an upper bound on the distinct count and nothing more.",
+    "kani": [
+        H(PQS, "c18_f1_fold_chunk_step", "compute_statistics (per-chunk fold region + reported-bounds region, struct ColAcc verbatim)", "inductive step: J0 representation invariant, J1 null_count exact or None, J2 reported min/max cover an arbitrary old value and an arbitrary value of the new chunk; all chunk variants", lane="KX"),
+        H(PQS, "c18_f1_all_null_chunk_keeps_bounds", "compute_statistics (per-chunk fold region)", "an all-NULL chunk (no min/max, null_count == num_values) leaves the reported bounds unchanged", lane="KX"),
+        H(PQS, "c18_f3_non_null", "compute_statistics (non_null region)", "non_null == total_rows.saturating_sub(nulls) or total_rows; <= total_rows; all inputs", lane="KX"),
+        H(PQS, "c18_f3_ndv_est_upper_bound", "compute_statistics (ndv_est region)", "no panic for any min <= max; result == min(non_null, max-min+1) over the integers; None without bounds", lane="KX"),
+    ],
+    "trusted_base": [
+        "each chunk's own footer statistics are sound for that chunk (null count exact, min <= v <= max) - the writer's guarantee, assumed by the property",
+        "the footer read is the file's; rg.num_rows() summed into total_rows (a one-line fold) is not under contract",
+        "carrier KChunk for ColumnChunkMetaData: statistics() (real parquet Statistics values) and num_values()",
+        "induction over chunks, row groups and files is pen and paper (one step proved for an arbitrary state)",
+    ],
+    "not_under_contract": ["file opening / footer parsing", "the dictionary-page NDV probe for string columns (file I/O; estimate only)", "ShardedParquetTable::statistics' scaling of row_count/total_byte_size", "total_rows / total_bytes sums"],
+    "technique": "Kani on verbatim regions of compute_statistics (the fold body, the reported-bounds rule, the NDV expression) as an inductive step from an arbitrary accumulator",
+    "level_text": "Deductive for the fold logic: all statistics values, all chunk variants, arbitrary accumulator state, so it holds for every row-group layout and file count by induction; I/O around it is assumed.",
+    "level_note": "Trusted: Kani/CBMC; writer statistics sound per chunk; footer contents; carriers for chunk metadata; the induction over chunks is pen and paper.",
 }
 
 
